@@ -147,7 +147,12 @@ def random_history(iw, rng, length):
         ms = [h for h, k in held.items() if k == 'macro']
         r = rng.random()
         cls = rng.choice((0, 0, 0, 1, 2, 3))
-        if r < 0.22 or not doms:
+        if r < 0.04 and doms:
+            # the automatic-name prefix of a class re-configured in the middle of a history (sub-classes inherit it unless they
+            # were given their own): later unnamed requests are registered under, and carry, the name built from the NEW prefix
+            l = 'cfg.prefix\t%s\t%d\t%s' % (rng.choice(('dom', 'cplx', 'cplx', 'strand')), cls, rng.choice(('m', 'x', 'c', 'd', 'q')))
+            kind = None
+        elif r < 0.22 or not doms:
             l = 'mk.dom\t%d\t%s\t%s\t-\t%s' % (cls, rng.choice(names[:6] + ['-']), rng.choice(['5', '9', '-', '-']), rng.choice(['-', '-', 'short', 'long']))
             kind = 'dom'
         elif r < 0.30:
